@@ -308,22 +308,41 @@ class Builder:
             self.add(frame(t, rng.choice([0, 0, 1, 4, 8, 0x20, 0xff]) if t != 5 else rng.choice([0, 4]), s, pl))
         else:
             # malformed frames of the known types
-            self.add(rng.choice([
-                frame(0, 0, 0, [1, 2, 3]),                  # DATA on stream 0
-                frame(0, 8, sid or 1, []),                  # padded DATA without pad byte
-                frame(0, 8, sid or 1, [9, 1, 2]),           # pad larger than payload
-                frame(1, 4, 0, block(GRPC_HDR)),            # HEADERS on stream 0
-                frame(1, 4 | 8, sid or 1, [200] + block(GRPC_HDR)[:5]),   # pad too big -> stream error
-                frame(1, 4 | 0x20, sid or 1, [0, 0]),       # priority section short
-                frame(1, 4, sid or 1, [0x80]),              # HPACK index 0
-                frame(1, 4, sid or 1, block(GRPC_HDR)[:-2]),   # truncated header block
-                frame(3, 0, sid or 1, [0, 0, 0]),           # RST with 3 bytes
-                frame(3, 0, 0, u32(8)),                     # RST on stream 0
-                frame(6, 0, 0, [0] * 7), frame(6, 0, 3, [0] * 8),
-                frame(7, 0, 0, [0] * 7), frame(7, 0, 5, u32(1) + u32(0)),
-                frame(8, 0, sid, [0, 0, 0]),
-                frame(0, 0, sid or 1, [0] * 16385),         # larger than http2MaxFrameLen
-            ]))
+            k = rng.randrange(16)
+            s1 = sid or 1
+            if k == 0:
+                op = frame(0, 0, 0, [1, 2, 3])                  # DATA on stream 0
+            elif k == 1:
+                op = frame(0, 8, s1, [])                        # padded DATA without pad byte
+            elif k == 2:
+                op = frame(0, 8, s1, [9, 1, 2])                 # pad larger than payload
+            elif k == 3:
+                op = frame(1, 4, 0, block(GRPC_HDR))            # HEADERS on stream 0
+            elif k == 4:
+                op = frame(1, 4 | 8, s1, [200] + block(GRPC_HDR)[:5])   # pad too big -> stream error
+            elif k == 5:
+                op = frame(1, 4 | 0x20, s1, [0, 0])             # priority section short
+            elif k == 6:
+                op = frame(1, 4, s1, [0x80])                    # HPACK index 0
+            elif k == 7:
+                op = frame(1, 4, s1, block(GRPC_HDR)[:-2])      # truncated header block
+            elif k == 8:
+                op = frame(3, 0, s1, [0, 0, 0])                 # RST with 3 bytes
+            elif k == 9:
+                op = frame(3, 0, 0, u32(8))                     # RST on stream 0
+            elif k == 10:
+                op = rng.choice([frame(6, 0, 0, [0] * 7), frame(6, 0, 3, [0] * 8)])
+            elif k == 11:
+                op = rng.choice([frame(7, 0, 0, [0] * 7), frame(7, 0, 5, u32(1) + u32(0))])
+            elif k == 12:
+                op = frame(8, 0, sid, [0, 0, 0])
+            elif k == 13:
+                op = frame(0, 0, s1, [0] * 16385)               # larger than http2MaxFrameLen
+            elif k == 14:
+                op = frame(1, 4 | 8, s1, [])                    # padded HEADERS without pad byte
+            else:
+                op = frame(5, 4 | 8, s1, [9, 0, 0, 0, 2])       # PUSH_PROMISE pad too big
+            self.add(op)
 
     def goaway_op(self, last=None, code=None):
         rng = self.rng
@@ -361,10 +380,54 @@ class Builder:
             self.add(rng.choice(["peerclose", "trunc 000005", "trunc 00000401000000", "trunc 004001000000000001"]))
             self.dead = True
 
+    def hold_window(self):
+        """The peer stops reading: loopy stalls in its next flush while the reader goroutine keeps handling frames, so
+        frames meet streams that are done but not yet removed from activeStreams.  No NewStream inside the window (a queued
+        HEADERS item would be orphaned by loopy or closed by Close, whichever runs first)."""
+        rng = self.rng
+        if self.pending_cont is not None or self.held:
+            return
+        self.add("hold")
+        self.held = True
+        # one item for loopy to flush: it blocks right away, before any handler that queues several items (otherwise the
+        # point at which it blocks depends on how far the reader goroutine got)
+        self.add(ping())
+        for _ in range(rng.randrange(1, 9)):
+            sid = self.some_id()
+            r = rng.random()
+            if r < 0.22:
+                self.add(trailers(sid, rng.choice(["0", "5", "x"])))
+            elif r < 0.34:
+                self.add(headers(sid, pick_fields(rng, "hdr"), es=rng.random() < 0.2))
+            elif r < 0.48:
+                self.add(data(sid, rng.choice([0, 3, 700, 16384]), es=rng.random() < 0.3))
+            elif r < 0.62:
+                self.add(rst(sid, rng.choice([0, 7, 7, 8, 2])))
+            elif r < 0.72:
+                self.goaway_op()
+            elif r < 0.78:
+                self.add(ping(d=bytes(rng.randrange(256) for _ in range(8))))
+            elif r < 0.82:
+                self.add(settings([(rng.choice([1, 4, 5]), 4096)]))
+            elif r < 0.88 and self.n_rpcs:
+                self.add("cancel %d" % rng.randrange(self.n_rpcs))
+            elif r < 0.93 and self.n_rpcs:
+                self.add("half %d" % rng.randrange(self.n_rpcs))
+            elif r < 0.97:
+                self.add("sleep %d" % rng.choice([1, 20]))
+                self.now += 20
+            else:
+                self.add(rng.choice(["peerclose0", "f 6 0 0 00"]).replace("peerclose0", "f 3 0 0 00000008"))   # a connection error inside the window
+                self.dead = True
+        self.add("release")
+        self.held = False
+
     def random_tail(self, n):
         rng = self.rng
         for _ in range(n):
-            if self.pending_cont is not None or rng.random() < 0.62:
+            if self.allow_hold and rng.random() < 0.06:
+                self.hold_window()
+            elif self.pending_cont is not None or rng.random() < 0.62:
                 self.frame_op()
             else:
                 self.app_op()
@@ -518,4 +581,42 @@ def stream_lifecycles(rng):
                 b.now += 3000
                 b.add(trailers(1, "0"))
                 cases.append((b.ops, "life-%s-%s-%d" % (name, mode, half)))
+    return cases
+
+
+def directed_hold(rng):
+    """frames that reach a stream which already has its outcome but is still in activeStreams (loopy stalled)"""
+    cases = []
+    for first in ("trailers", "rst", "cancel", "dataes", "badhdr"):
+        for second in ("goaway0", "rstrefused", "data", "trailers", "hdr", "rst", "goaway-goaway"):
+            b = Builder(rng, allow_hold=True)
+            b.new(mode=rng.choice("rw"), deadline=0)
+            b.new(mode=rng.choice("rw"), deadline=0)
+            b.add(headers(3, GRPC_HDR))
+            b.add("hold")
+            b.add(ping())
+            b.add({"trailers": trailers(3, "5"), "rst": rst(3, 2), "cancel": "cancel 1", "dataes": data(3, 4, es=True),
+                   "badhdr": headers(3, [("grpc-status", "x")], es=True)}[first])
+            for op in {"goaway0": [goaway(1)], "rstrefused": [rst(3, 7)], "data": [data(3, 9), data(3, 0, es=True)],
+                       "trailers": [trailers(3, "0")], "hdr": [headers(3, GRPC_HDR)], "rst": [rst(3, 8)],
+                       "goaway-goaway": [goaway(MAXI31), goaway(1)]}[second]:
+                b.add(op)
+            b.add(ping())
+            b.add("release")
+            b.add(trailers(1, "0"))
+            b.add("sleep 10")
+            cases.append((b.ops, "hold-%s-%s" % (first, second)))
+    for how in ("close", "connerr", "gclose", "peer-goaway-all"):
+        b = Builder(rng, allow_hold=True)
+        b.new(mode="w", deadline=0)
+        b.new(mode="r", deadline=0)
+        b.add("hold")
+        b.add(ping())
+        b.add(trailers(3, "0"))
+        b.add({"close": "close", "connerr": frame(6, 0, 0, [0]), "gclose": "gclose", "peer-goaway-all": goaway(0)}[how])
+        b.add("sleep 1000")
+        b.add("sleep 5000")
+        b.add("release")
+        b.add("sleep 10")
+        cases.append((b.ops, "hold-" + how))
     return cases
